@@ -93,85 +93,59 @@ impl RefAdam {
     }
 }
 
-/// Reference of the doubling / halving search, driven by the one-step acceptances seen at the trajectory
-/// tap (`seg` = the leapfrog results after the search's start state, all from that start state).
-/// Returns (number of leapfrogs the search makes, step size in force afterwards, adaptation re-created);
-/// Err(None) = not decidable from the tap (near tie, failed evaluation), Err(Some(text)) = the recorded
-/// search is not a possible execution.
-fn ref_search(seg: &[nuts_rs::verif::TapState], initial_step: f64, target: f64) -> Result<(usize, f64, bool), Option<String>> {
-    let acc = |t: &nuts_rs::verif::TapState| -> Result<Option<f64>, Option<String>> {
-        if t.failed {
-            return Err(None);
-        }
-        if t.divergent {
-            return Ok(None);
-        }
-        let a = (-(t.energy - t.initial_energy)).exp().min(1.0);
-        if !a.is_finite() {
-            return Err(None);
-        }
-        if (a - target).abs() < 1e-12 {
-            return Err(None);
-        }
-        Ok(Some(a))
-    };
-    let Some(first) = seg.first() else { return Err(None) };
-    let Some(a1) = acc(first)? else { return Ok((1, initial_step, false)) };
-    let up = a1 > target;
-    let mut step = initial_step;
-    for j in 1..=100usize {
-        let Some(t) = seg.get(j) else {
-            return Err(Some(format!("the search stopped after {} one-step trials although none of them bracketed the target (first acceptance {a1:.6}, target {target}, direction {})", seg.len(), if up { "doubling" } else { "halving" })));
-        };
-        let Some(a) = acc(t)? else { return Ok((j + 1, initial_step, false)) };
-        if up {
-            if a <= target || step > 1e5 {
-                return Ok((j + 1, step, true));
-            }
-            step *= 2.0;
-        } else {
-            if a >= target || step < 1e-10 {
-                return Ok((j + 1, step, true));
-            }
-            step /= 2.0;
-        }
-    }
-    Ok((101, initial_step, false))
-}
-
-/// Compare one recorded search with the reference. `observed_step`: the step size in force afterwards.
+/// The bracket property of a step-size search, judged from the trajectory tap without assuming how the search
+/// walks: `seg` = the one-step trials after the search's start state (all from that state; hook H3 reports
+/// the step size of each). The step size in force afterwards, f, must be
+///  (B) a tried step whose one-step acceptance lies on the other side of the target than (or on it, with)
+///      the acceptance of another trial at f/2, 2f or f itself - a divergent trial counts as acceptance 0 -, or
+///  (L) beyond the search's range (> 1e5 or < 1e-10), or
+///  (F) the configured initial step after a divergent trial or after 100 trials without a bracket (the
+///      documented fallback).
+/// Searches with a failed evaluation or an acceptance within 1e-12 of the target are counted, not judged.
 fn check_search(what: &str, pname: &str, seg: &[nuts_rs::verif::TapState], initial_step: f64, target: f64, observed_step: Option<f64>, out: &mut RunOutcome) -> bool {
-    match ref_search(seg, initial_step, target) {
-        Err(None) => {
-            out.probe("search_not_decidable_from_tap", 1);
-            true
-        }
-        Err(Some(msg)) => {
-            out.violate(format!("C07/search_does_not_end_at_bracket/{pname}"), format!("{what}: {msg}"));
-            false
-        }
-        Ok((n, step, reset)) => {
-            if seg.len() != n {
-                let accs: Vec<String> = seg.iter().take(12).map(|t| if t.divergent || t.failed { "div".to_string() } else { format!("{:.4}", (-(t.energy - t.initial_energy)).exp().min(1.0)) }).collect();
-                out.violate(
-                    format!("C07/search_does_not_end_at_bracket/{pname}"),
-                    format!("{what}: the search made {} one-step trials, the bracketing rule ends it after {n} (initial step {initial_step:e}, target {target}, acceptances {:?})", seg.len(), accs),
-                );
-                return false;
-            }
-            if let Some(obs) = observed_step {
-                if rel(obs, step) > 1e-6 {
-                    out.violate(
-                        format!("C07/search_result_not_the_bracketing_step/{pname}"),
-                        format!("{what}: step size in force after the search {obs:e}, the bracketing step is {step:e} (initial step {initial_step:e}, {n} trials, adaptation re-created: {reset})"),
-                    );
-                    return false;
-                }
-            }
-            out.probe(if reset { "searches_checked_bracketed" } else { "searches_checked_fallback" }, 1);
-            true
+    if seg.is_empty() || seg.iter().any(|t| t.failed) {
+        out.probe("search_not_decidable_from_tap", 1);
+        return true;
+    }
+    let trials: Vec<(f64, f64)> = seg
+        .iter()
+        .map(|t| (t.epsilon.abs(), if t.divergent { 0.0 } else { (-(t.energy - t.initial_energy)).exp().min(1.0) }))
+        .collect();
+    if trials.iter().any(|(e, a)| !e.is_finite() || *e <= 0.0 || !a.is_finite() || (a - target).abs() < 1e-12) {
+        out.probe("search_not_decidable_from_tap", 1);
+        return true;
+    }
+    let any_div = seg.iter().any(|t| t.divergent);
+    let Some(f) = observed_step else {
+        out.probe("search_result_not_observable", 1);
+        return true;
+    };
+    let same = |a: f64, b: f64| rel(a, b) < 1e-6;
+    // every tried step is the initial step times a power of two (doubling / halving search)
+    for (e, _) in &trials {
+        let k = (e / initial_step).log2();
+        if (k - k.round()).abs() > 1e-6 {
+            out.violate(format!("C07/search_does_not_end_at_bracket/{pname}"), format!("{what}: a trial used step size {e:e}, which is not the initial step {initial_step:e} times a power of two"));
+            return false;
         }
     }
+    let fallback = same(f, initial_step) && (any_div || trials.len() >= 100);
+    let limit = f > 1e5 || f < 1e-10;
+    let at_f: Vec<f64> = trials.iter().filter(|(e, _)| same(*e, f)).map(|(_, a)| *a).collect();
+    // (the search probes forward when it doubles and backward when it halves, and the first probe is always
+    // forward: two probes at f itself with acceptances on both sides of the target are a bracket of width 0)
+    let neighbours: Vec<f64> = trials.iter().filter(|(e, _)| same(*e, 2.0 * f) || same(*e, 0.5 * f) || same(*e, f)).map(|(_, a)| *a).collect();
+    let bracket = at_f.iter().any(|a| neighbours.iter().any(|b| (a - target) * (b - target) <= 0.0));
+    if fallback || limit || bracket {
+        out.probe(if bracket { "searches_checked_bracketed" } else if fallback { "searches_checked_fallback" } else { "searches_checked_at_limit" }, 1);
+        return true;
+    }
+    let shown: Vec<String> = trials.iter().take(14).map(|(e, a)| format!("{e:.4e}:{a:.4}")).collect();
+    out.violate(
+        format!("C07/search_does_not_end_at_bracket/{pname}"),
+        format!("{what}: step size in force after the search {f:e} (initial step {initial_step:e}, target {target}); trials step:acceptance {:?}{}: no other trial at f/2, 2f or f has its acceptance on the other side of the target", shown, if any_div { " (a trial diverged, but the result is not the initial step either)" } else { "" }),
+    );
+    false
 }
 
 fn rel(a: f64, b: f64) -> f64 {
